@@ -431,6 +431,33 @@ theorem cond_shape (nm : String) (slot : Nat) (tr ar br : Rep) :
       ["double " ++ nm ++ ";", "if (" ++ tr.ce.render ++ ")", nm ++ " = " ++ (setVarRhs .double ar).render ++ ";",
        "else", nm ++ " = " ++ (setVarRhs .double br).render ++ ";"] := ⟨rfl, rfl⟩
 
+/-- **A conditional over the accumulator inside an `Aggregate` lambda, next to a real term** — `Aggregate(0, lambda
+acc, j: (acc if acc > 0 else 0) + j.k())` with `k` float/double: the conditional is translated while the accumulator is
+still an `int`, the accumulator is widened to `double` afterwards, and the emitted loop (result variable `double`, no
+narrowing cast) computes for every list of elements exactly Python's fold.  The only fact about doubles used is
+`¬ (0.0 < 0.0)`, an explicit hypothesis. -/
+theorem clamp_sum_correct (nm : String) (ifs : Nat) (hi : ifs ≠ accSlot) (k : CT) (hk : k = .float ∨ k = .double)
+    (s : String) (slot : Nat) (hs : slot ≠ accSlot) (hsi : slot ≠ ifs) (h0 : N.lt (N.ofInt 0) (N.ofInt 0) = false)
+    (elems : List (Env N)) :
+    ∃ o c p, emitAgg nm ifs seed0 (clampUpd nm ifs k s slot) = .ok o ∧ o.accTy = .double ∧
+      (o.cond.map (·.result.ty)) = some .double ∧
+      runAggC ifs o (.dbl (N.ofInt 0)) elems = some c ∧
+      runAggPy true (clampUpd nm ifs k s slot) (.int 0) elems = some p ∧ numEq c p := by
+  have key : ∀ (elems : List (Env N)) (x : N.D) (ap : PV N), clampInv x ap →
+      ∃ y p, runAggC ifs (clampOut nm ifs k s slot) (.dbl x) elems = some (.dbl y) ∧
+        runAggPy true (clampUpd nm ifs k s slot) ap elems = some p ∧ clampInv y p := by
+    intro elems
+    induction elems with
+    | nil => intro x ap h; exact ⟨x, ap, rfl, rfl, h⟩
+    | cons env rest ih =>
+      intro x ap h
+      obtain ⟨y, p, h1, h2, h3⟩ := ih _ (.float _) (Or.inl rfl)
+      refine ⟨y, p, ?_, ?_, h3⟩
+      · simp only [runAggC, clamp_stepC nm ifs hi k hk s slot hs hsi env x]; exact h1
+      · simp only [runAggPy, clamp_stepPy nm ifs hi k hk s slot hs hsi env x ap h0 h]; exact h2
+  obtain ⟨y, p, h1, h2, h3⟩ := key elems (N.ofInt 0) (.int 0) (Or.inr ⟨rfl, rfl⟩)
+  refine ⟨_, _, p, emitAgg_clamp nm ifs hi k hk s slot hs hsi, rfl, rfl, h1, h2, ?_⟩
+  rcases h3 with rfl | ⟨rfl, rfl⟩ <;> simp [numEq, CV.isFloating, CV.ctype, CT.isFloating, CV.toD]
 /-- `visit_BoolOp` (two operands): the `bool` result variable holds the truth value of Python's `a and b` /
 `a or b` (Python itself returns the deciding *operand*; the generated code its truth value — `and`/`or` are not among
 the operators the property quantifies over). -/
